@@ -390,7 +390,7 @@ class C12(Base):
         maxlen = 8 if tier == "quick" else 50
         for n in (1, 2, 3):
             # every short length, and lengths around the block sizes a blocked / chunked summation would use
-            for ln in list(range(0, maxlen + 1)) + [15, 16, 17, 18, 31, 32, 33, 47, 63, 64, 65, 100]:
+            for ln in list(range(0, maxlen + 1)) + [15, 16, 17, 18, 31, 32, 33, 47, 63, 64, 65, 100, 255, 256, 257, 300]:
                 pts = []
                 for _ in range(ln):
                     pts += [rng.rat() for _ in range(n)]
@@ -410,6 +410,8 @@ class C12(Base):
                 out.append(Case(f"o.p{n}.affine", [rng.rat() for _ in range(4 * n)], family="oracle"))
                 ln = rng.rng(1, 9) if rng.chance(3, 4) else rng.choice([15, 16, 17, 18, 31, 33, 47, 65])
                 out.append(Case(f"o.p{n}.centroid", [rng.rat() for _ in range(ln * n)], family="oracle"))
+            for ln in (255, 256, 257, 300, 513):
+                out.append(Case(f"o.p{n}.centroid", [F(rng.rng(-50, 50)) for _ in range(ln * n)], family="oracle-long"))
         for _ in range(k):
             out.append(Case("o.p3.homogeneous", [rng.rat() for _ in range(3)] + [rng.rat_nz()], family="oracle"))
         return out
